@@ -10,7 +10,7 @@ package main
 //	ao-run  <script> <D> <a>                                  => res=… cancel=… time=… resolve=…
 //	ao-race <script> <D> <a> res=… cancel=… time=… resolve=…  => racy      (observation checked by the Lean monitor for membership)
 //	ao-double resolve2=<ok|blocked|panic>                     => documented
-//	ao-site <file>:<func>                                     => (buffered=… readsAfterWait=… propagatesErr=… deadline=… | unknown) scope=…
+//	ao-site <file>:<func>                                     => (buffered=… readsAfterWait=… propagatesErr=… deadline=… | unknown) scope=… waitErrReturns=…
 //
 // D = ctx time-out in ms, a = script delay in ms.  Time classes: before (< D),
 // ontime (D … D+aoMargin), late (> D+aoMargin).  The real wrappers themselves
@@ -369,7 +369,7 @@ func aoSites(c *Ctx) {
 			if len(aoCallsNamed(fd, "NewAsyncOp")) == 0 {
 				continue
 			}
-			facts := aoAnalyse(fset, fd) + " scope=" + aoScope(fd)
+			facts := aoAnalyse(fset, fd) + " scope=" + aoScope(fd) + " waitErrReturns=" + aoWaitGuard(fset, fd)
 			c.E.Line(fmt.Sprintf("ao-site %s:%s", filepath.Base(path), fd.Name.Name), facts)
 			tag := "site:recognised"
 			if strings.HasPrefix(facts, "unknown") {
@@ -539,6 +539,145 @@ func aoScope(fd *ast.FuncDecl) string {
 		}
 	}
 	return worst
+}
+
+// aoWaitGuard: does the wrapper hand back a non-nil result of `opm.Wait(op, err)` WITHOUT first receiving from a
+// channel its callback sends on?  (When gocbcore refuses the request at dispatch no callback will ever run and
+// `Wait` returns the dispatch error at once: a receive before the guard blocks for ever.)  Independent of
+// aoAnalyse: it also answers for shapes that one gives up on.
+//
+//	1        the one `Wait` outside the callback is `return opm.Wait(…)`, or `x (:)= opm.Wait(…)` followed at once by
+//	         `if x != nil { …; return … }` (or the same as an if-with-init), and every receive from a callback
+//	         channel outside the callback comes after that guard (or there is none)
+//	0        a receive from a callback channel can run before / without the guard
+//	unknown  not recognised
+func aoWaitGuard(fset *token.FileSet, fd *ast.FuncDecl) string {
+	news := aoCallsNamed(fd, "NewAsyncOp")
+	if len(news) != 1 {
+		return "unknown"
+	}
+	newCall := news[0]
+	opm := ""
+	ast.Inspect(fd, func(n ast.Node) bool {
+		if as, ok := n.(*ast.AssignStmt); ok && len(as.Lhs) == 1 && len(as.Rhs) == 1 && as.Rhs[0] == ast.Expr(newCall) {
+			if id, ok := as.Lhs[0].(*ast.Ident); ok {
+				opm = id.Name
+			}
+		}
+		return true
+	})
+	if opm == "" {
+		return "unknown"
+	}
+	var callbacks []*ast.FuncLit
+	ast.Inspect(fd, func(n ast.Node) bool {
+		fl, ok := n.(*ast.FuncLit)
+		if !ok || len(aoMethodCalls(fl.Body, opm, "Resolve")) == 0 {
+			return true
+		}
+		inner := false // innermost literal only
+		ast.Inspect(fl.Body, func(m ast.Node) bool {
+			if fl2, ok := m.(*ast.FuncLit); ok && len(aoMethodCalls(fl2.Body, opm, "Resolve")) > 0 {
+				inner = true
+			}
+			return true
+		})
+		if !inner {
+			callbacks = append(callbacks, fl)
+		}
+		return true
+	})
+	if len(callbacks) == 0 {
+		return "unknown"
+	}
+	inCallback := func(n ast.Node) bool {
+		for _, cb := range callbacks {
+			if aoWithin(n, cb) {
+				return true
+			}
+		}
+		return false
+	}
+	chans := map[string]bool{}
+	for _, cb := range callbacks {
+		ast.Inspect(cb.Body, func(n ast.Node) bool {
+			if ss, ok := n.(*ast.SendStmt); ok {
+				if id, ok := ss.Chan.(*ast.Ident); ok {
+					chans[id.Name] = true
+				}
+			}
+			return true
+		})
+	}
+	var recvs []ast.Node
+	ast.Inspect(fd, func(n ast.Node) bool {
+		if ue, ok := n.(*ast.UnaryExpr); ok && ue.Op == token.ARROW && !inCallback(ue) {
+			if id, ok := ue.X.(*ast.Ident); ok && chans[id.Name] {
+				recvs = append(recvs, ue)
+			}
+		}
+		return true
+	})
+	var waits []*ast.CallExpr
+	for _, w := range aoMethodCalls(fd, opm, "Wait") {
+		if !inCallback(w) {
+			waits = append(waits, w)
+		}
+	}
+	if len(waits) != 1 {
+		return "unknown"
+	}
+	wait := waits[0]
+	// innermost statement list that holds the Wait
+	var block *ast.BlockStmt
+	ast.Inspect(fd, func(n ast.Node) bool {
+		if b, ok := n.(*ast.BlockStmt); ok && aoWithin(wait, b) && !inCallback(b) && (block == nil || aoWithin(b, block)) {
+			block = b
+		}
+		return true
+	})
+	if block == nil {
+		return "unknown"
+	}
+	guarded := func(ifs *ast.IfStmt, name string) bool {
+		if ifs.Else != nil || len(ifs.Body.List) == 0 || aoExprString(fset, ifs.Cond) != name+"!=nil" {
+			return false
+		}
+		_, isRet := ifs.Body.List[len(ifs.Body.List)-1].(*ast.ReturnStmt)
+		return isRet
+	}
+	var guardEnd token.Pos
+	for i, st := range block.List {
+		if !aoWithin(wait, st) {
+			continue
+		}
+		switch v := st.(type) {
+		case *ast.ReturnStmt:
+			if len(v.Results) == 1 && v.Results[0] == ast.Expr(wait) {
+				guardEnd = v.Pos() // nothing of this block runs after it
+			}
+		case *ast.IfStmt:
+			if as, ok := v.Init.(*ast.AssignStmt); ok && len(as.Lhs) == 1 && len(as.Rhs) == 1 && as.Rhs[0] == ast.Expr(wait) {
+				if lhs, ok := as.Lhs[0].(*ast.Ident); ok && guarded(v, lhs.Name) {
+					guardEnd = v.End()
+				}
+			}
+		case *ast.AssignStmt:
+			if len(v.Lhs) == 1 && len(v.Rhs) == 1 && v.Rhs[0] == ast.Expr(wait) && i+1 < len(block.List) {
+				lhs, ok := v.Lhs[0].(*ast.Ident)
+				ifs, ok2 := block.List[i+1].(*ast.IfStmt)
+				if ok && ok2 && ifs.Init == nil && guarded(ifs, lhs.Name) {
+					guardEnd = ifs.End()
+				}
+			}
+		}
+	}
+	for _, r := range recvs {
+		if guardEnd == token.NoPos || r.Pos() < guardEnd {
+			return "0"
+		}
+	}
+	return "1"
 }
 
 // aoAnalyse recognises the wrapper pattern in one function; anything it is not sure about is "unknown".
